@@ -167,7 +167,11 @@ PROPS = {
                 explanation='every block is proved exact on its documented domain: packed-pair find, Rabin-Karp (search and constructors), '
                             'Two-Way forward/reverse (incl. completeness via the critical-factorisation theorem), Shift-Or (bit-parallel automaton)',
                 assumptions=[A_TW, A_CTOR, A_LEAF]),
+    # `also`: (kind, function regex, clause regex) counted in addition: loop invariants that are numeric bounds (they are
+    # what discharges index/overflow obligations later in the loop) and the postcondition of min_haystack_len (the
+    # documented panic is specified relative to it)
     'C14': dict(level='proof', kinds=PANIC, non_mem=True, kani=[],
+                also=[('invariant', r'.*', r'(<=|>=|<|>)'), ('postcondition', r'min_haystack_len$', r'.*')],
                 builds=[dict(build='main', modules=None, select=[(r'.*', r'.*')])] + others([(r'.*', r'.*')]) + [dict(build='other32', modules=None, select=[(r'.*', r'.*')])],
                 explanation='every debug_assert (X3), assert (X4, pinned to the documented precondition both ways), index, slice, subtraction, '
                             'shift, unwrap and loop termination in the extracted units is an obligation discharged by Verus',
